@@ -148,6 +148,9 @@ func runC13(p *Program, r *Result) {
 	r.Rule("R13.8", "an error result that is looked at is looked at on every path to a return", 1)
 	checkErrorsExaminedOnEveryPath(p, r, libPkgs)
 
+	r.Rule("R13.9", "a refusal is an error: no zero-valued return whose error is a merge that can be nil", 1)
+	checkNoSilentRefusal(p, r, libPkgs)
+
 	r.Rule("R13.7", "every error a reader returns is remembered, so that the next Read fails as well", 4)
 	for _, spec := range [][3]string{{pkgStream, "Reader", "Read"}, {pkgArmor, "armoredReader", "Read"}} {
 		if f := r.anchor(spec[0], spec[1], spec[2]); f != nil {
